@@ -627,6 +627,93 @@ class Alg:
         _fail(s, "statement")
 
 
+def _iter_methods(tree):
+    """__iter__, __reversed__ (generator expressions over item_list that skip _MISSING) and iter_slice"""
+    text = ""
+
+    def live_genexp(e, alias):
+        """(item for item in <item_list | reversed(item_list)> if item is not _MISSING)  ->  Gallina list of items"""
+        if not (isinstance(e, ast.GeneratorExp) and len(e.generators) == 1):
+            _fail(e, "generator expression")
+        g = e.generators[0]
+        ok = (isinstance(g.target, ast.Name) and isinstance(e.elt, ast.Name) and e.elt.id == g.target.id and not g.is_async
+              and len(g.ifs) == 1 and isinstance(g.ifs[0], ast.Compare) and len(g.ifs[0].ops) == 1
+              and isinstance(g.ifs[0].ops[0], ast.IsNot) and isinstance(g.ifs[0].left, ast.Name)
+              and g.ifs[0].left.id == g.target.id and isinstance(g.ifs[0].comparators[0], ast.Name)
+              and g.ifs[0].comparators[0].id == "_MISSING")
+        if not ok:
+            _fail(e, "generator expression")
+
+        def is_items(x):
+            return _is_self_attr(x, "item_list") or (isinstance(x, ast.Name) and x.id in alias)
+        if is_items(g.iter):
+            return "(live_of (items self))"
+        if isinstance(g.iter, ast.Call) and isinstance(g.iter.func, ast.Name) and g.iter.func.id == "reversed" \
+                and len(g.iter.args) == 1 and not g.iter.keywords and is_items(g.iter.args[0]):
+            return "(live_of (rev (items self)))"
+        _fail(e, "iterated expression")
+    for name in ("__iter__", "__reversed__"):
+        fn = _method(tree, name)
+        if [a.arg for a in fn.args.args] != ["self"]:
+            raise Unsupported("unexpected signature of %s" % name)
+        body = [x for x in fn.body if not (isinstance(x, ast.Expr) and isinstance(x.value, ast.Constant))]
+        alias = set()
+        while body and isinstance(body[0], ast.Assign) and len(body[0].targets) == 1 and isinstance(body[0].targets[0], ast.Name) \
+                and _is_self_attr(body[0].value, "item_list"):
+            alias.add(body[0].targets[0].id)
+            body = body[1:]
+        if not (len(body) == 1 and isinstance(body[0], ast.Return)):
+            raise Unsupported("unexpected body of %s" % name)
+        text += "Definition src_%s (self : iset) : list K :=\n  %s.\n\n" % (name.strip("_"), live_genexp(body[0].value, alias))
+    # iter_slice
+    fn = _method(tree, "iter_slice")
+    a = fn.args
+    if [x.arg for x in a.args] != ["self", "start", "stop", "step"] or len(a.defaults) != 1 \
+            or not (isinstance(a.defaults[0], ast.Constant) and a.defaults[0].value is None):
+        raise Unsupported("unexpected signature of iter_slice")
+    body = [x for x in fn.body if not (isinstance(x, ast.Expr) and isinstance(x.value, ast.Constant))]
+    out = "Definition src_iter_slice (self : iset) (start stop step : option Z) : option (list K) :=\n"
+    iterable = None
+    opts = ("start", "stop", "step")
+
+    def neg_test(t):
+        """P is not None and P < 0  ->  P"""
+        if isinstance(t, ast.BoolOp) and isinstance(t.op, ast.And) and len(t.values) == 2:
+            x, y = t.values
+            if isinstance(x, ast.Compare) and len(x.ops) == 1 and isinstance(x.ops[0], ast.IsNot) and isinstance(x.left, ast.Name) \
+                    and x.left.id in opts and isinstance(x.comparators[0], ast.Constant) and x.comparators[0].value is None \
+                    and isinstance(y, ast.Compare) and len(y.ops) == 1 and isinstance(y.ops[0], ast.Lt) \
+                    and isinstance(y.left, ast.Name) and y.left.id == x.left.id \
+                    and isinstance(y.comparators[0], ast.Constant) and y.comparators[0].value == 0:
+                return x.left.id
+        return None
+    for st in body:
+        if isinstance(st, ast.Assign) and len(st.targets) == 1 and isinstance(st.targets[0], ast.Name) \
+                and isinstance(st.value, ast.Name) and st.value.id == "self" and iterable is None:
+            iterable = st.targets[0].id
+            out += "  let %s := m_live self in\n" % iterable
+            continue
+        if isinstance(st, ast.If) and not st.orelse and neg_test(st.test):
+            pn = neg_test(st.test)
+            want = ast.parse("%s = max(%s + len(self), 0)" % (pn, pn)).body[0]
+            if len(st.body) == 1 and ast.dump(st.body[0]) == ast.dump(want):
+                out += "  let %s := if opt_lt0 %s then Some (Z.max (opt_get %s + lenZ self) 0)%%Z else %s in\n" % (pn, pn, pn, pn)
+                continue
+            want2 = ast.parse("%s = -%s\n%s = reversed(self)" % (pn, pn, iterable)).body
+            if iterable and len(st.body) == 2 and [ast.dump(x) for x in st.body] == [ast.dump(x) for x in want2]:
+                out += "  let '(%s, %s) := if opt_lt0 %s then (Some (- opt_get %s)%%Z, rev (m_live self)) else (%s, %s) in\n" % (
+                    pn, iterable, pn, pn, pn, iterable)
+                continue
+        want = ast.parse("return islice(%s, start, stop, step)" % iterable).body[0] if iterable else None
+        if want is not None and ast.dump(st) == ast.dump(want) and st is body[-1]:
+            out += "  py_islice %s start stop step.\n\n" % iterable
+            break
+        _fail(st, "statement of iter_slice")
+    else:
+        raise Unsupported("iter_slice does not end in return islice(...)")
+    return text + out
+
+
 def _alg_methods(tree):
     text = ""
 
@@ -729,6 +816,7 @@ def generate(repo):
         text += "Definition src_%s (self : iset)%s : %s :=\n" % (name.strip("_"), sig, ty) + \
             Pure(kinds).block(fn.body, "  ").rstrip("\n") + ".\n\n"
     text += _alg_methods(tree)
+    text += _iter_methods(tree)
     # __getitem__: the dispatch on the argument's type must be literally the known prelude; the integer path follows
     gi = _method(tree, "__getitem__")
     if [a.arg for a in gi.args.args] != ["self", "index"] or gi.args.defaults:
